@@ -61,6 +61,12 @@ func TestVerifC06Wire(t *testing.T) {
 	if rep.ClassCount("hosts_files_queries") < 60 {
 		rep.Inconcl(fmt.Sprintf("only %d queries for names that are both in the table and in the hosts files", rep.ClassCount("hosts_files_queries")))
 	}
+	for _, cl := range []string{"dns64_on:table_answers_aaaa_with_empty", "dns64_on:table_answers_aaaa_with_values",
+		"tables_on_servers_with_dns64:default-prefix", "tables_on_servers_with_dns64:custom-prefix"} {
+		if rep.ClassCount(cl) < 20 {
+			rep.Inconcl(fmt.Sprintf("class %s seen only %d times", cl, rep.ClassCount(cl)))
+		}
+	}
 	if rep.ClassCount("long_chain_queries:9plus_hops") < 20 {
 		rep.Inconcl(fmt.Sprintf("only %d queries nine or more hops from the end of a chain", rep.ClassCount("long_chain_queries:9plus_hops")))
 	}
@@ -123,6 +129,20 @@ func c06WireTable(rep *verifkit.Report, rng *rand.Rand, idx int) {
 		texts = append(texts, dom+" -> "+ans)
 	}
 	conf := &vkConf{Mode: filtering.BlockingModeDefault, Protection: true, FilteringEnabled: true, Rewrites: rws}
+	// DNS64 is a dimension of the server configuration: off, on with the
+	// well-known prefix, on with a configured prefix.  It concerns answers
+	// that come from the upstream; what the table answers must not change.
+	dns64 := ""
+	switch idx % 3 {
+	case 1:
+		dns64, conf.UseDNS64 = "default-prefix", true
+	case 2:
+		dns64, conf.UseDNS64 = "custom-prefix", true
+		conf.DNS64Prefixes = []netip.Prefix{netip.MustParsePrefix("2001:db8:64::/96")}
+	}
+	if dns64 != "" {
+		rep.Class("tables_on_servers_with_dns64:" + dns64)
+	}
 	vs, err := vkStart(conf)
 	if err != nil {
 		rep.Inconcl("server start: " + err.Error())
@@ -207,6 +227,21 @@ func c06WireTable(rep *verifkit.Report, rng *rand.Rand, idx int) {
 				}
 			}
 			sort.Strings(addrs)
+			if dns64 != "" && qt == dns.TypeAAAA && (!matched || (res.CanonName != "" && len(res.IPList) == 0)) {
+				// The answer comes from the upstream path, where DNS64 may
+				// ask the upstream again and synthesize addresses: not
+				// judged.
+				rep.Unspec("dns64-on-upstream-path")
+
+				continue
+			}
+			if dns64 != "" && qt == dns.TypeAAAA && matched {
+				if len(res.IPList) == 0 {
+					rep.Class("dns64_on:table_answers_aaaa_with_empty")
+				} else {
+					rep.Class("dns64_on:table_answers_aaaa_with_values")
+				}
+			}
 			// Independent of the product's own result: a name that no
 			// pattern of the table matches is not rewritten, and every
 			// address in a rewritten answer is the value of a line whose
